@@ -5,6 +5,9 @@ open Clemens
 
 def fenField (s : String) : String := s.replace " " "_"
 
+/-- is the position in the domain the properties quantify over (a legal chess position)? -/
+def dom (p : Pos) : String := " s.dom=" ++ boolStr (Fide.wellFormed (absPos p) && p.ply / 2 + 1 ≤ 128)
+
 def opFen (args : List String) : String :=
   match args with
   | [h] =>
@@ -34,7 +37,7 @@ def opGen (args : List String) : String :=
       s!"s.legaluci={if specLegal.isEmpty then "-" else ",".intercalate specLegal} " ++
       s!"m.check={boolStr (isInCheck p p.side)} s.check={boolStr (Fide.inCheck fp fp.side)} " ++
       s!"m.wf={boolStr (WF p)} s.wf={boolStr (Fide.wellFormed fp)} " ++
-      s!"s.capsfilter={moveWords capsFiltered}"
+      s!"m.capsfilter={moveWords capsFiltered}" ++ dom p
     | r => s!"m.res={resTag r}"
   | _ => "bad-op"
 
@@ -45,7 +48,7 @@ def opAttby (args : List String) : String :=
     | .ok p =>
       let m := (List.range 64).map fun s => hex64 (squareAttackedBy p s)
       let s := (specAttby p).map hex64
-      s!"m.attby={",".intercalate m} s.attby={",".intercalate s}"
+      s!"m.attby={",".intercalate m} s.attby={",".intercalate s}" ++ dom p
     | r => s!"m.res={resTag r}"
   | _ => "bad-op"
 
@@ -59,8 +62,8 @@ def opMv (args : List String) : String :=
         let sq := Fide.apply (absPos p) (absMove m)
         s!"m.res=ok m.dump={dumpPos q} m.fen={fenField (fenText q)} s.fen={fenField (Fide.toFen sq)} " ++
         s!"m.legal={boolStr (isLegal q)} s.legal={boolStr (!Fide.inCheck sq (absPos p).side)} m.wf={boolStr (WF q)} " ++
-        s!"m.fullhash={hex64 (fullHash K q)} m.str={bytesToString (moveToString m)}"
-      | none => "m.res=panic"
+        s!"m.fullhash={hex64 (fullHash K q)} m.str={bytesToString (moveToString m)}" ++ dom p
+      | none => "m.res=panic" ++ dom p
     | _, _ => "m.res=badpos"
   | _ => "bad-op"
 
@@ -85,7 +88,7 @@ def opPlay (args : List String) : String :=
       match r with
       | .ok (p, fp, hist) =>
         s!"m.res=ok m.dump={dumpPos p} m.fen={fenField (fenText p)} s.fen={fenField (Fide.toFen fp)} " ++
-        s!"m.hist={",".intercalate (hist.reverse.map hex64)} m.fullhash={hex64 (fullHash K p)}"
+        s!"m.hist={",".intercalate (hist.reverse.map hex64)} m.fullhash={hex64 (fullHash K p)}" ++ dom p0
       | .error => "m.res=error"
       | .panic => "m.res=panic"
     | r => s!"m.res={resTag r}"
@@ -112,7 +115,7 @@ def opNull (args : List String) : String :=
     | .ok p =>
       let (q, ep) := makeNull K p
       let back := unmakeNull K q ep
-      s!"m.null={dumpPos q} m.nullfull={hex64 (fullHash K q)} m.back={dumpPos back} m.same={boolStr (back == p)}"
+      s!"m.null={dumpPos q} m.nullfull={hex64 (fullHash K q)} m.back={dumpPos back} m.same={boolStr (back == p)}" ++ dom p
     | r => s!"m.res={resTag r}"
   | _ => "bad-op"
 
@@ -120,7 +123,7 @@ def opPerft (args : List String) : String :=
   match args with
   | [h, d] =>
     match parsePos h, d.toNat? with
-    | .ok p, some d => s!"m.perft={perft K p d} s.perft={Fide.perft (absPos p) d}"
+    | .ok p, some d => s!"m.perft={perft K p d} s.perft={Fide.perft (absPos p) d}" ++ dom p
     | _, _ => "m.res=badpos"
   | _ => "bad-op"
 
